@@ -738,6 +738,10 @@ static const Fixed CORPUS[] = {
   { "R{a:=X1 | 1=2 | \xE2\x88\x85}", "K9:recursion-init-type", true }, { "R{a:=X1 | \xE2\x88\x85}", "K9:recursion-init-type", true },
   { "\xE2\x88\x80x\xE2\x88\x88R{a:=X1 | 1=2 | \xE2\x88\x85} pr1(x)=x", "K9:recursion-init-type", true }, { "R{a:=S1 | 1=2 | \xE2\x88\x85}\xE2\x88\xAAX1", "K9:recursion-init-type", true },
   { "R{a:=\xE2\x88\x85 | 1=2 | X1}", "fixed", false }, { "R{(a,b):=(X1,\xE2\x88\x85) | (\xE2\x88\x85, b)}", "K9:recursion-init-type", true },
+  // a recursion whose step type never stabilises has no type (found by prover-C03: accepted as ℬℬℬℬℬℬℬ(R0))
+  { "R{\xCE\xBE:=\xE2\x88\x85 | {\xCE\xBE}}", "K10:recursion-unstable", true }, { "R{\xCE\xBE:=\xE2\x88\x85 | \xE2\x84\xAC(\xCE\xBE)}", "K10:recursion-unstable", true },
+  { "R{\xCE\xBE:=\xE2\x88\x85 | \xCE\xBE\xE2\x88\xAA{\xCE\xBE}}", "K10:recursion-unstable", true }, { "R{\xCE\xBE:=\xE2\x88\x85 | 1=1 | {\xCE\xBE}}", "K10:recursion-unstable", true },
+  { "R{\xCE\xBE:=\xE2\x88\x85 | \xCE\xBE\xE2\x88\xAA{X1}}", "fixed", false }, { "R{\xCE\xBE:=\xE2\x88\x85 | \xCE\xBE\xE2\x88\xAA{{X1}}}", "fixed", false },
   // template parameters that meet only the any-type (found through seeded change C03-1)
   { "F6[\xE2\x88\x85, \xE2\x88\x85]", "K8:template-any", true }, { "F6[\xE2\x88\x85, \xE2\x88\x85]\xE2\x88\xAAX1", "K8:template-any", true }, { "F6[\xE2\x88\x85, X1]", "fixed", false }, { "F6[X1, \xE2\x88\x85]", "fixed", false },
   { "F6[F6[\xE2\x88\x85, \xE2\x88\x85], X1]", "K8:template-any", true }, { "D7:==F6[\xE2\x88\x85, \xE2\x88\x85]", "K8:template-any", true }, { "F6[\xE2\x88\x85, \xE2\x88\x85]=X1", "K8:template-any", true },
